@@ -42,6 +42,10 @@ def yield_(e, comp="y", time=None, tid="final"):
     return {"op": "yield", "e": e, "comp": comp, "time": time or V("<t>"), "tid": tid}
 
 
+def implicit(lhs, solve, eqs, params):
+    return {"op": "implicit", "lhs": list(lhs), "solve": list(solve), "exprs": list(eqs), "params": [list(p) for p in params]}
+
+
 def if_(c):
     return {"op": "if", "c": c}
 
@@ -68,6 +72,13 @@ def needs_defs(call, defined):
         for a in call["args"]:
             exprs.variables(a, reads)
         for _k, a in call["kw"]:
+            exprs.variables(a, reads)
+        defs.update(call["lhs"])
+    elif op == "implicit":
+        for a in call["exprs"]:
+            exprs.variables(a, reads)
+        reads -= set(call["solve"])
+        for _k, a in call["params"]:
             exprs.variables(a, reads)
         defs.update(call["lhs"])
     elif op == "yield":
